@@ -4,6 +4,14 @@ import json, os
 root = os.path.dirname(os.path.dirname(os.path.abspath(__file__)))
 props = [json.loads(l) for l in open(os.path.join(root, 'properties.jsonl'))]
 claims = json.load(open(os.path.join(root, 'tools', 'claims.json')))
+import subprocess
+try:
+    log = subprocess.check_output(['git', '-C', '/repo', 'log', '--format=%h %s'], text=True).splitlines()
+    hooks = [l.split()[0] for l in log if ' verif hook' in l]
+    if hooks:
+        claims['_hook_commits'] = list(reversed(hooks))
+except Exception:
+    pass
 checks, na = [], []
 for p in props:
     pid = p['id']
@@ -28,7 +36,7 @@ m = {
     "setup_cmd": "cd /verif/engine && GOFLAGS=-mod=vendor GOPROXY=off GOSUMDB=off GOTOOLCHAIN=local go build -o /verif/bin/vcgen .",
     "hooks": {
         "guard": "verif",
-        "enable": "contracts live in /repo/**/zz_contracts_verif.go (//go:build verif, comments only); the engine loads packages with -tags verif",
+        "enable": "contracts live in /repo/**/zz_contracts_verif.go (//go:build verif, comments only) and the executable reference specifications of the bounded checks in /repo/server/zz_verif_spec.go (//go:build verif); the engine loads packages with -tags verif",
         "baseline_off_cmd": "cd /repo && GOFLAGS=-mod=mod GOPROXY=off go test -vet=off -count=1 -timeout 25m ./...",
         "source_commits": claims.get("_hook_commits", []),
         "add_only": True,
